@@ -776,10 +776,12 @@ func amplify(tag string, lines []string) (n int, oneP bool) {
 			return 6, oneP
 		case strings.HasPrefix(l, "call ") && cancelled && !stopped:
 			switch {
+			case strings.HasPrefix(tag, "witness"):
+				n, oneP = 12, true
 			case many:
 				n, oneP = 32, true
 			case strings.HasPrefix(tag, "giveup"):
-				n, oneP = 10, true
+				n, oneP = 6, true
 			case strings.HasSuffix(tag, "+giveup"):
 				n, oneP = 3, true
 			}
@@ -1235,7 +1237,7 @@ func spec() corr.Spec {
 		Count: func(tier string) int {
 			switch tier {
 			case "quick":
-				return 4000
+				return 2400
 			case "thorough":
 				return 60000
 			}
